@@ -103,7 +103,7 @@ pub struct BatchStats {
     pub ticks: u64,
     pub steps: u64,
     pub switches: u64,
-    pub f: [u64; 9],
+    pub f: [u64; 10],
     pub preempt_site: [u64; NSITES],
     pub pairs: BTreeMap<(u8, u8), u64>,
     pub work_differs: u64,
@@ -185,7 +185,7 @@ pub fn run_batch(
                     bs.futex_waits += g("fw");
                     bs.max_inflight = bs.max_inflight.max(g("mi"));
                     if let Some(a) = v.get("f").and_then(|x| x.as_array()) {
-                        for (k, x) in a.iter().enumerate().take(9) {
+                        for (k, x) in a.iter().enumerate().take(10) {
                             bs.f[k] += x.as_u64().unwrap_or(0);
                         }
                     }
@@ -626,7 +626,7 @@ pub fn write_replay_file(
         v["minimisation"] = json!({"candidates_run": m.candidates, "accepted": m.accepted, "wall_s": m.wall_s});
     }
     let cj = case.to_json();
-    for k in ["threads", "churn", "start", "switches", "clock_jumps", "stack_depths_kb"] {
+    for k in ["threads", "churn", "start", "switches", "clock_jumps", "stack_depths_kb", "cpu_limits"] {
         v[k] = cj[k].clone();
     }
     let _ = std::fs::write(&path, serde_json::to_string_pretty(&v).unwrap_or_default());
@@ -721,7 +721,7 @@ pub fn check(o: &CheckOpts) -> i32 {
     // isolated nondeterminism: two isolated evaluations of the same call differ
     for (k, (call, a, b)) in ost.isolated_nondeterminism.iter().enumerate().take(3) {
         raw_violations += 1;
-        let case = Case { threads: vec![vec![call.clone()]], churn: vec![vec![]], start: 0, switches: vec![], jumps: vec![vec![]], depths: vec![vec![]] };
+        let case = Case { threads: vec![vec![call.clone()]], churn: vec![vec![]], start: 0, switches: vec![], jumps: vec![vec![]], depths: vec![vec![]], cpus: vec![0] };
         let rr = RunResult {
             status: "violation".into(),
             rec: json!({"violation": {"kind": "isolated_nondeterminism", "call": call.to_json(), "expected": a, "observed": b, "client": 0, "call_no": 0}}),
@@ -741,7 +741,7 @@ pub fn check(o: &CheckOpts) -> i32 {
     }
     for (k, (call, a, b)) in amb.mismatches.iter().enumerate().take(2) {
         raw_violations += 1;
-        let case = Case { threads: vec![vec![call.clone()]], churn: vec![vec![]], start: 0, switches: vec![], jumps: vec![vec![]], depths: vec![vec![]] };
+        let case = Case { threads: vec![vec![call.clone()]], churn: vec![vec![]], start: 0, switches: vec![], jumps: vec![vec![]], depths: vec![vec![]], cpus: vec![0] };
         let rr = RunResult {
             status: "violation".into(),
             rec: json!({"violation": {"kind": "isolated_nondeterminism", "detail": "differs between a forked child of the driver and a freshly exec'd process with another environment / address-space layout", "call": call.to_json(), "expected": a, "observed": b, "client": 0, "call_no": 0}}),
@@ -863,14 +863,14 @@ pub fn check(o: &CheckOpts) -> i32 {
     let search: Vec<&BatchStats> = batches.iter().collect();
     let evaluations: u64 = search.iter().map(|b| b.completed).sum();
     let mut nontrivial: BTreeSet<u64> = BTreeSet::new();
-    let mut f = [0u64; 9];
+    let mut f = [0u64; 10];
     let mut ps = [0u64; NSITES];
     let mut pairs: BTreeMap<(u8, u8), u64> = BTreeMap::new();
     let (mut calls, mut ticks, mut steps, mut switches, mut wd, mut sens, mut lost, mut inconc, mut crashed) = (0u64, 0u64, 0u64, 0u64, 0u64, 0u64, 0u64, 0u64, 0u64);
     for b in &search {
         // the det_w4 / det_w1 batches repeat det_w16's seeds: their schedules are the same ones, the set dedups them
         nontrivial.extend(b.sched_nontrivial.iter().copied());
-        for k in 0..9 {
+        for k in 0..10 {
             f[k] += b.f[k];
         }
         for k in 0..NSITES {
@@ -973,7 +973,7 @@ pub fn check(o: &CheckOpts) -> i32 {
             });
             let _ = std::fs::write(&path, serde_json::to_string_pretty(&v).unwrap_or_default());
             let class = ("any".to_string(), kind.to_string());
-            let case = Case { threads: vec![], churn: vec![], start: 0, switches: vec![], jumps: vec![], depths: vec![] };
+            let case = Case { threads: vec![], churn: vec![], start: 0, switches: vec![], jumps: vec![], depths: vec![], cpus: vec![] };
             let kn = match_known(&known, &class, &case);
             findings.push(Finding { file: path, class, case, known: kn, confidence: format!("{} of {} Miri seeds fail", m.failing_seeds.len(), m.seeds) });
         }
@@ -996,7 +996,7 @@ pub fn check(o: &CheckOpts) -> i32 {
     }
 
     let mut fired = Map::new();
-    for k in 0..9 {
+    for k in 0..10 {
         fired.insert(FAULT_NAMES[k].to_string(), json!(f[k]));
     }
     let mut pair_list: Vec<Value> = Vec::new();
@@ -1084,7 +1084,7 @@ pub fn check(o: &CheckOpts) -> i32 {
         "C16: {} runs with verdict ({} distinct schedules with intra-call pre-emption), {} calls, {} ticks, {} switches; no-verdict: {} step-cap, {} lost-control, {} crashed; site-pair fill {}/{}; wall {:.1}s",
         evaluations, nontrivial.len(), calls, ticks, switches, inconc, lost, crashed, filled, cells, wall
     );
-    println!("fault kinds fired: {}", (0..9).map(|k| format!("{}={}", FAULT_NAMES[k], f[k])).collect::<Vec<_>>().join(" "));
+    println!("fault kinds fired: {}", (0..10).map(|k| format!("{}={}", FAULT_NAMES[k], f[k])).collect::<Vec<_>>().join(" "));
     if evaluations == 0 {
         eprintln!("HARNESS-ERROR: no run reached a verdict");
         return 2;
